@@ -109,6 +109,16 @@ def create_marker_cache_from_specified_markers(
     those markers will just be dropped and a warning issued
     """
 
+    # every gene listed in the lookup as it was given (validation below
+    # intersects the lists it patches with the query genes, which would
+    # hide a listed gene that is not in the reference dataset)
+    listed_markers = set()
+    for parent_node in marker_lookup:
+        if parent_node in ('metadata', 'log'):
+            continue
+        listed_markers = listed_markers.union(
+            set(marker_lookup[parent_node]))
+
     # check that all non-trivial parent nodes will have more than
     # zero marker genes assigned to them
     if taxonomy_tree is not None:
@@ -140,7 +150,7 @@ def create_marker_cache_from_specified_markers(
     reference_gene_set = set(reference_gene_names)
     final_marker_lookup = dict()
     missing_query_markers = set()
-    missing_reference_markers = set()
+    missing_reference_markers = listed_markers-reference_gene_set
     for parent_node in marker_lookup:
         if parent_node == 'metadata':
             continue
